@@ -20,24 +20,24 @@ const (
 	TParam
 	TFree
 	TGlobal
-	TField   // Sub[0].Name (auto-deref)
-	TIndex   // Sub[0][Sub[1]]
-	TLen     // len(Sub[0])
-	TCap     // cap(Sub[0])
-	TCall    // Name(Sub...) possibly tagged with a site
-	TRes     // result #K of call Sub[0]
-	TBin     // Sub[0] Name Sub[1]
-	TUn      // Name Sub[0]   (!, -, ^, &)
-	TConv    // Name(Sub[0]) possibly lossy conversion
-	TAssert  // Sub[0].(Name)
-	TOk      // ok flag of Sub[0] (assert / lookup / recv)
-	TSlice   // Sub[0][Sub[1]:Sub[2]:Sub[3]]
-	TVar     // a mutable local/captured variable's current value, unique per load
-	TPhi     // unique
-	TNew     // fresh allocation (make, new, composite literal), unique
-	TFunc    // function value
-	TOpaque  // anything else, unique
-	TRange   // range iteration values
+	TField  // Sub[0].Name (auto-deref)
+	TIndex  // Sub[0][Sub[1]]
+	TLen    // len(Sub[0])
+	TCap    // cap(Sub[0])
+	TCall   // Name(Sub...) possibly tagged with a site
+	TRes    // result #K of call Sub[0]
+	TBin    // Sub[0] Name Sub[1]
+	TUn     // Name Sub[0]   (!, -, ^, &)
+	TConv   // Name(Sub[0]) possibly lossy conversion
+	TAssert // Sub[0].(Name)
+	TOk     // ok flag of Sub[0] (assert / lookup / recv)
+	TSlice  // Sub[0][Sub[1]:Sub[2]:Sub[3]]
+	TVar    // a mutable local/captured variable's current value, unique per load
+	TPhi    // unique
+	TNew    // fresh allocation (make, new, composite literal), unique
+	TFunc   // function value
+	TOpaque // anything else, unique
+	TRange  // range iteration values
 )
 
 type Term struct {
@@ -659,19 +659,19 @@ var externalPure = map[string]bool{
 	"(*math/big.Int).Int64": true, "(*math/big.Int).Uint64": true, "(*math/big.Int).IsUint64": true,
 	"(*math/big.Int).IsInt64": true, "(*math/big.Int).Cmp": true, "(*math/big.Int).Sign": true,
 	"bytes.Equal": true, "bytes.Compare": true,
-	"(github.com/ethereum/go-ethereum/common.Hash).Bytes":    true,
-	"(github.com/ethereum/go-ethereum/common.Address).Bytes": true,
-	"(github.com/ethereum/go-ethereum/common.Hash).Hex":      true,
-	"(github.com/ethereum/go-ethereum/common.Address).Hex":   true,
-	"github.com/ethereum/go-ethereum/common.BytesToHash":     true,
-	"github.com/ethereum/go-ethereum/common.BytesToAddress":  true,
+	"(github.com/ethereum/go-ethereum/common.Hash).Bytes":       true,
+	"(github.com/ethereum/go-ethereum/common.Address).Bytes":    true,
+	"(github.com/ethereum/go-ethereum/common.Hash).Hex":         true,
+	"(github.com/ethereum/go-ethereum/common.Address).Hex":      true,
+	"github.com/ethereum/go-ethereum/common.BytesToHash":        true,
+	"github.com/ethereum/go-ethereum/common.BytesToAddress":     true,
 	"(*github.com/ethereum/go-ethereum/core/types.Header).Hash": true,
 	"strings.HasPrefix": true, "strings.HasSuffix": true, "strings.EqualFold": true,
 	"reflect.TypeOf": true,
-	"github.com/shutter-network/shutter/shlib/shcrypto.ComputeEpochID": true,
+	"github.com/shutter-network/shutter/shlib/shcrypto.ComputeEpochID":            true,
 	"github.com/shutter-network/shutter/shlib/shcrypto.VerifyEpochSecretKeyShare": true,
-	"github.com/shutter-network/shutter/shlib/shcrypto.VerifyEpochSecretKey": true,
-	"google.golang.org/protobuf/proto.MessageName": true,
+	"github.com/shutter-network/shutter/shlib/shcrypto.VerifyEpochSecretKey":      true,
+	"google.golang.org/protobuf/proto.MessageName":                                true,
 }
 
 func (p *Prog) isPure(fn *ssa.Function) bool {
